@@ -49,7 +49,7 @@ fn num(s: &Sx) -> Option<i64> {
 }
 
 /// an iterator that counts its `next` calls in a shared counter
-#[derive(Clone)]
+#[derive(Clone, Debug)]
 struct Counting<I> {
     it: I,
     n: Arc<AtomicUsize>,
